@@ -107,7 +107,7 @@ Proof.
     + intros id H. apply inl_cons in H as [H|H]; [unfold inr, rend in H; cbn in H; lia | destruct (inl_nil _ H)].
     + lia.
   - split; [constructor | reflexivity].
-  - reflexivity.
+  - lia.
   - intros id H. destruct (inl_nil _ H).
 Qed.
 Example C07_ex_treach : exists id a t, treach ex_b 0 a t /\ id <> 0 /\ moveToMeta t <> [] /\ rollback a t = ex_b.
